@@ -228,6 +228,9 @@ class QuicSession:
                 associated_data = quic_packet.first_byte + quic_packet.dcid + quic_packet.packet_num
             payload = decryptor.decrypt(quic_packet.payload, packet_number, associated_data, quic_packet.isserver)
 
+            # only an authenticated packet moves the largest packet number of its space (RFC 9000 A.3)
+            self.set_largest_packet_number(quic_packet, packet_number)
+
             frames = parse_frames(payload, quic_packet)
 
             for frame in frames:
@@ -366,11 +369,6 @@ class QuicSession:
         packet_number_int = int.from_bytes(quic_packet.packet_num, "big", signed=False)
 
         if packet_number_int > largest_pkn == 0:
-            if quic_packet.isserver:
-                self.packet_number_server[PACKET_TYPE_MAP[quic_packet.packet_type]] = packet_number_int
-            else:
-                self.packet_number_client[PACKET_TYPE_MAP[quic_packet.packet_type]] = packet_number_int
-
             return quic_packet.packet_num
 
         truncated_pkn = packet_number_int
@@ -392,13 +390,16 @@ class QuicSession:
         else:
             out_pkn = candidate_pkn
 
-        if out_pkn > largest_pkn:
-            if quic_packet.isserver:
-                self.packet_number_server[PACKET_TYPE_MAP[quic_packet.packet_type]] = out_pkn
-            else:
-                self.packet_number_client[PACKET_TYPE_MAP[quic_packet.packet_type]] = out_pkn
-
         return int.to_bytes(out_pkn, 8, "big", signed=False)
+
+    def set_largest_packet_number(self, quic_packet: ShortQuicPacket | LongQuicPacket, packet_number: bytes):
+        out_pkn = int.from_bytes(packet_number, "big", signed=False)
+        if quic_packet.isserver:
+            if out_pkn > self.packet_number_server[PACKET_TYPE_MAP[quic_packet.packet_type]]:
+                self.packet_number_server[PACKET_TYPE_MAP[quic_packet.packet_type]] = out_pkn
+        else:
+            if out_pkn > self.packet_number_client[PACKET_TYPE_MAP[quic_packet.packet_type]]:
+                self.packet_number_client[PACKET_TYPE_MAP[quic_packet.packet_type]] = out_pkn
 
     def set_tls_decryptors(self, client_random, ciphersuite: bytes):
 
